@@ -188,8 +188,17 @@ def sample_of(tr, n_ev=6):
 def judge(ctx, traces, label):
     """TLC validates; every distinct rejected clause of every trace becomes a violation with the clause as signature"""
     byid = {t['id']: t for t in traces}
-    verdicts, results = tlc.validate_traces("TraceCandles", "TraceCandles.cfg", [strip(t) for t in traces], ctx.scratch,
-                                            parts=ctx.pick(8, 14), timeout=ctx.pick(600, 2400))
+    verdicts, results = {}, []
+    group = ctx.pick(10 ** 9, 700)            # thorough: bounded batches (memory: each TLC holds its JSON batch)
+    clean = [strip(t) for t in traces]
+    for g in range(0, len(clean), group):
+        sub = ctx.sub("g%d" % g)
+        v, r = tlc.validate_traces("TraceCandles", "TraceCandles.cfg", clean[g:g + group], sub, parts=ctx.pick(8, 7),
+                                   timeout=ctx.pick(600, 2400), heap="3g", max_procs=ctx.pick(8, 7))
+        verdicts.update(v)
+        results += r
+        import shutil
+        shutil.rmtree(sub, ignore_errors=True)
     nbad = 0
     seen = {}
     for r in results:
@@ -227,7 +236,8 @@ def run(ctx):
     jobs, labels = [], []
     for inst in insts:
         fast = inst[4]
-        partial = fast and inst[3] % inst[5] != 0
+        last = -(-inst[3] // inst[5]) * inst[5]               # end of the last (shorter) chunk
+        partial = fast and inst[3] % inst[5] != 0 and any(last % T == 0 for T in inst[0])
         variants = [("repaired", (False, False, False)), ("as-code", (True, True, True))]
         variants += [("stale-only", (True, False, False))]
         if inst[2] == 0:
@@ -269,15 +279,16 @@ def run(ctx):
         edges = [json.loads(e[1]) for e in tlc.tagged(r, "EDGE")]
         n_edges += len(edges)
         ws = maximal_witnesses([e["hist"] for e in edges])
-        if ctx.quick and len(ws) > 35:
-            ws = rng.sample(ws, 35)
+        cap = ctx.pick(35, 400)
+        if len(ws) > cap:
+            ws = rng.sample(ws, cap)
         for h in ws:
             cid += 1
             cases.append(witness_to_case(inst, h, cid))
     n_r = len(cases)
     ctx.log("R: %d model transitions, %d maximal witnesses to replay" % (n_edges, n_r))
     # ------------------------------------------------------------ T
-    n_t = ctx.pick(100, 1800)
+    n_t = ctx.pick(100, 1500)
     cases += random_cases(ctx, rng, n_t, first_id=cid + 1)
     traces = run_cases(ctx, cases)
     ctx.log("drivers: %d real backtests done" % len(traces))
